@@ -27,7 +27,7 @@ func (c *Ctx) lintBindingFormsField(field string, position int) (map[string]bool
 	for _, f := range p.Syntax {
 		ast.Inspect(f, func(n ast.Node) bool {
 			vs, ok := n.(*ast.ValueSpec)
-			if !ok || len(vs.Names) != 1 || vs.Names[0].Name != "bindingForms" || len(vs.Values) != 1 {
+			if !ok || len(vs.Names) != 1 || info.Defs[vs.Names[0]] == nil || info.Defs[vs.Names[0]] != c.LookupPkgObj("lint.bindingForms") || len(vs.Values) != 1 {
 				return true
 			}
 			cl, ok := vs.Values[0].(*ast.CompositeLit)
@@ -1015,7 +1015,7 @@ func init() {
 				return []Obligation{anchorMissing(rid, "lint")}
 			}
 			info := p.TypesInfo
-			table := p.Types.Scope().Lookup("builtinArityTable")
+			table := c.LookupPkgObj("lint.builtinArityTable")
 			if table == nil {
 				return []Obligation{anchorMissing(rid, "lint.builtinArityTable")}
 			}
@@ -1635,7 +1635,7 @@ func init() {
 					core[e.Name] = true
 				}
 			}
-			bf := p.Types.Scope().Lookup("bindingForms")
+			bf := c.LookupPkgObj("lint.bindingForms")
 			// normalising helpers: lint functions that strip "lisp:"
 			norm := map[*types.Func]bool{}
 			decls := map[*types.Func]*ast.FuncDecl{}
